@@ -13,7 +13,8 @@ EXPLANATION = (
     "of the right negotiated-state field against exactly the right feature bit is a must-fact "
     "(holds on every CFG path to the site); the negotiated-state fields are written only by the "
     "negotiation messages; REPLY_ACK is or-ed into every protocol-feature offer. This covers all "
-    "negotiation histories at once because the gate reads the state the history produced.")
+    "negotiation histories at once because the gate reads the state the history produced."
+    " Also: (G5) the frontend's record of the acked protocol features is exactly the set it sent.")
 NOT_DECIDED = ("Sequences of messages as such; that the peers agree on the negotiated set at run time.")
 
 
